@@ -706,7 +706,7 @@ impl<A, B> IntoIterator for Vec2<A, B> {
         let iter = IntoIter {
             aaa_begin: self.aaa_ptr(),
             bbb_begin: self.bbb_ptr(),
-            bbb_end: unsafe { NonNull::new_unchecked(self.bbb_ptr().as_ptr().add(self.len)) },
+            rem: self.len,
             bbb_ptr: self.bbb_ptr,
             cap: self.cap,
         };
